@@ -525,6 +525,29 @@ func ruleC02SEID(w *World, r *Report, handlers map[string]*ssa.Function, accepte
 			}
 		}
 		r.floor("R02.3 session response constructors in "+hn, n, 2)
+		// no stale copy: a load of session.remoteSEID that feeds a response must not be followed by a store to session.remoteSEID
+		allInstrs(h, func(i ssa.Instruction) {
+			ld, ok := i.(*ssa.UnOp)
+			if !ok || ld.Op != token.MUL {
+				return
+			}
+			fa, ok := ld.X.(*ssa.FieldAddr)
+			if !ok || fieldVar(fa) == nil || fieldVar(fa).Name() != "remoteSEID" || rootTypeName(fa.X.Type()) != "PFCPSession" {
+				return
+			}
+			allInstrs(h, func(j ssa.Instruction) {
+				st, ok := j.(*ssa.Store)
+				if !ok {
+					return
+				}
+				fb, ok := st.Addr.(*ssa.FieldAddr)
+				if !ok || fieldVar(fb) != fieldVar(fa) {
+					return
+				}
+				stale := reach(h, ld, func(x ssa.Instruction) bool { return x == ssa.Instruction(st) }, nil, nil) != nil
+				r.check(!stale, "R02.3", hn, "CP SEID is read after the request's CP F-SEID was applied", w.Pos(ld.Pos()), "no store to session.remoteSEID follows the read", "session.remoteSEID is copied for the response before the CP F-SEID of this request is applied: the response is addressed to the old CP SEID")
+			})
+		})
 		// unknown session ⇒ SEID zero: the reject issued on the !found edge of store.GetSession sees no earlier store to the captured SEID cell
 		if req != "SessionEstablishmentRequest" {
 			var get *ssa.Call
@@ -659,6 +682,19 @@ func ruleC02Accepted(w *World, r *Report, handlers map[string]*ssa.Function, acc
 	}
 	// addPdrInfo's guards
 	an := w.FuncName(addPdrInfo)
+	// every PDR of the message is visited: the loop over pdrs has no early exit
+	{
+		loops := rangeLoopsOver(addPdrInfo, "pdrs")
+		r.floor("R02.4 loop over the PDRs in addPdrInfo", len(loops), 1)
+		for _, l := range loops {
+			ex := loopEarlyExits(addPdrInfo, l[0])
+			pos := w.Pos(addPdrInfo.Pos())
+			if len(ex) > 0 && len(ex[0].Instrs) > 0 {
+				pos = w.Pos(ex[0].Instrs[len(ex[0].Instrs)-1].Pos())
+			}
+			r.check(len(ex) == 0, "R02.4", an, "every PDR of the message is examined (no early exit from the loop)", pos, "loop leaves only through its header", "the loop over the PDRs can stop early (break/return): later UP-chosen F-TEIDs / UE IPs get no Created PDR")
+		}
+	}
 	n := 0
 	allInstrs(addPdrInfo, func(i ssa.Instruction) {
 		c, ok := i.(*ssa.Call)
